@@ -35,9 +35,16 @@ CONSTANTS MaxRecs,             \* the workload has 1..MaxRecs records (shape cho
           MaxBatches,          \* bound on the number of "with database:" blocks the workload opens (0: none)
           GateResetOnError,    \* TRUE: __exit__ re-enables commits whichever way the block is left (the code).
                                \* FALSE: negative control - an exception leaves the commits deferred
-          ReloadWait           \* 0: the reload fills the tree directly from the rows it reads (the code).
+          ReloadWait,          \* 0: the reload fills the tree directly from the rows it reads (the code).
                                \* k > 0: negative control - rows are chained in the (arbitrary) order they are
                                \* read, a row whose parent was not read yet waits in a room for k - 1 rows
+          MaxDepth,            \* how deep the program nests "with database:" blocks of ONE database (1: no nesting)
+          EnterKeepsPending,   \* TRUE: __enter__ keeps the count of the commits that are already deferred
+                               \* (max(1, _pending_commits), the code).  FALSE: negative control - entering a
+                               \* block (again) starts the count afresh and forgets a commit that is owed
+          ParentFirst          \* TRUE: the program inserts a record only after the record it points to
+                               \* (add_credential: Token, then Metadata, then its Attestations - the code).
+                               \* FALSE: negative control - the records of a credential are written in any order
 
 DBs   == {"id", "att"}
 Kinds == {"token", "metadata", "attestation", "blob"}
@@ -249,8 +256,11 @@ PObserve == /\ pc = <<"observe">> /\ pc' = <<"idle">> /\ DbReload
 
 (* the workload inserts a record after the record it points to; anything not yet acknowledged may be *)
 (* (re-)inserted after a restart; INSERT OR IGNORE makes the re-insert of a stored record a no-op     *)
+(* PseudonymManager.add_credential / create_credential is the multi-step case: insert_token, insert_metadata,  *)
+(* insert_attestation per attestation - each its own transaction, a kill possible between any two of them, so  *)
+(* the file holds a PREFIX of that sequence; parent first, every prefix is closed under Ref                     *)
 Insertable(i) == /\ i \notin legacy
-                 /\ Ref(i) = 0 \/ Ref(i) \in T[DbOf(i)].rows
+                 /\ ParentFirst => (Ref(i) = 0 \/ Ref(i) \in T[DbOf(i)].rows)
                  /\ recs[i].kind = "blob" => i \notin T["att"].rows
 PCall(i) == /\ i \in Recs /\ pc = <<"idle">> /\ calls < MaxCalls /\ Insertable(i)
             /\ calls' = calls + 1 /\ pc' = <<"ins", i, IF inTxn[DbOf(i)] THEN "exec" ELSE "begin">> /\ UNCHANGED <<dbvars, recs, legacy, pend, batches>>
@@ -268,9 +278,11 @@ PCommit(i) == /\ Ins(i, "commit") /\ pc' = <<"ins", i, "ret">> /\ Same0 /\ UNCHA
 PReturn(i) == Ins(i, "ret") /\ DbReturn(i) /\ pc' = <<"idle">> /\ Same
 
 (* "with database:" - __enter__ closes the commit gate; __exit__ opens it again and, when the block is  *)
-(* left normally and a commit was deferred, commits (the workload opens blocks one at a time per database)    *)
-PEnter(d) == /\ pc = <<"idle">> /\ batches < MaxBatches /\ depth[d] = 0 /\ DbEnter(d)
-             /\ pend' = [pend EXCEPT ![d] = IF @ > 1 THEN @ ELSE 1] /\ batches' = batches + 1
+(* left normally and a commit was deferred, commits.  Blocks of one database nest up to MaxDepth: the gate is   *)
+(* ONE counter per Database object - an inner __enter__ must not lose what the outer block has deferred         *)
+(* (max(1, n)), every __exit__ (inner ones included) opens the gate and pays the deferred commit                *)
+PEnter(d) == /\ pc = <<"idle">> /\ batches < MaxBatches /\ depth[d] < MaxDepth /\ DbEnter(d)
+             /\ pend' = [pend EXCEPT ![d] = IF EnterKeepsPending /\ @ > 1 THEN @ ELSE 1] /\ batches' = batches + 1
              /\ UNCHANGED pc /\ Same0
 PLeaveCommit(d) == /\ pc = <<"idle">> /\ depth[d] > 0 /\ pend[d] > 1
                    /\ pend' = [pend EXCEPT ![d] = 0] /\ pc' = <<"leaving", d>>
